@@ -7,8 +7,8 @@ TRUSTED = [
     "harness/fieldprops.cpp (deck renderer, observation through the public FieldPropsManager API, independent C++ reference interpreter) + lib/vlib.py differ; model driver (compiled Lean)",
     "keyword_info tables (defaults, multiplier/top/global flags, SI factors) are read from the real global_kw_info<T>/UnitSystem at run time and handed to the model",
     "modelled, not verified: Parser (deck text -> DeckItems), EclipseGrid geometry and its active map (specified by `rank`; the real Box class is driven directly with arbitrary maps), libm (pow/log/log10 are called on both sides)",
-    "outside the model: PORV/TRAN*/TEMPI/saturation end points, multi-valued (compositional) keywords (finding 1), SCHEDULE-section multipliers, aliases, GRIDOPTS/MULTREGP",
-    "the model mirrors three defects of the code (design.d/C12.md findings 1-3); programs that hit finding 2 are excluded from the all-active comparison unless VERIF_C12_FINDINGS=1",
+    "outside the model: PORV/TRAN*/TEMPI/saturation end points, multi-valued (compositional) keywords (only the fixed witness), SCHEDULE-section multipliers, aliases, GRIDOPTS/MULTREGP",
+    "three defects found while building the check (design.d/C12.md findings 1-3) are fixed in the code (5ceb9fc1d, d8c0ea4e0, 0679405ff); their reproductions run as fixed property-mode witnesses",
 ]
 
 
